@@ -287,6 +287,18 @@ def getFlow (ft : FTree) (t : Txn) : Option FilterResult × Bool :=
     let (flows, found) := collect ft.store t vals (.none, false)
     (some flows, found)
 
+/-- The flows of a node by type. -/
+def FNode.group (n : FNode) : Kind → List Flow
+  | .user => n.userFlows
+  | .sysStart => n.systemFlowStart
+  | .sysEnd => n.systemFlowEnd
+
+/-- Closed form of what `getFlow` reports for group `k` (proved: `Properties.C03.getFlow_char`): for every
+    node the traversal returns, in order, the flows of that node that pass the node's qualification. -/
+def selected (ft : FTree) (t : Txn) (k : Kind) : List Flow :=
+  (lookupFlow ft.tree t.parts).flatMap fun v =>
+    ((ft.store.getD v .empty).group k).filter fun f => flowValid (ft.store.getD v .empty) f t
+
 /-- Names of the flows `Stream.ExecuteFlow` runs, in execution order: nothing at all when `GetFlow`
     reports `found = false`; else system-start, user, system-end flows (each group reversed on the
     response path).  Short-circuits and flow graphs are C04's. -/
